@@ -11,9 +11,12 @@ Line protocol for C19 (simulation order from a flowsheet).
   dfs <feed stream> e=<ends> u=<units>      → W=[path>recycle;…] L=[path;…] E=[ends afterwards, sorted]
   sort e=<ends> ( u0 ( u1 u2 r7 ) u3 )      → ( … ) warn=<number of "could not be determined" warnings>
   fromunits o=<unit order> f=<F_mass per stream id>
-                                            → ( … ) warn=<k>: the whole of Network.from_units on an acyclic
-                                              flowsheet (err=recycle as soon as a walk reports a recycle)
-  valid R=<reported recycles> ( … )         → valid | units | dup | order | recycle-on-dag | no-recycle | backward
+                                            → units=<sorted, with multiplicity> R=<recycles> warn=<k> verdict=<checker on
+                                              the model's own network> | ( … ): the whole of Network.from_units while no
+                                              walk reports a recycle (then err=recycle); the harness compares what stands
+                                              before ` | `, the exact order after it is reported only
+  valid R=<reported recycles> ( … )         → valid | units | dup | recycle-set | order | recycle-on-dag | no-recycle |
+                                              recycles-do-not-cut | backward, then ` all=<every failing clause>`
 
 A network is written `( item … r<stream> … )`; `u<k>` is a unit, `r<k>` a recycle of the
 enclosing network.
@@ -128,11 +131,16 @@ def step (st : St) (line : String) : St × String :=
     | some order, some fmass =>
       match fromUnits st.g order fmass with
       | .error err => (st, "err=" ++ err.toString)
-      | .ok (it, w) => (st, joinWith " " (showItem it) ++ s!" warn={w}")
+      | .ok (it, w) =>
+        -- what the property can see (compared), then the exact nested path (reported only)
+        let rs := sortNat (allRecycles it)
+        (st, s!"units={joinWith "," ((sortNat it.flat).map toString)} R={joinWith "," (rs.map toString)} warn={w} " ++
+             s!"verdict={(checkNetwork st.g it rs).toString} | " ++ joinWith " " (showItem it))
     | _, _ => bad st
   | "valid" :: r :: net =>
     match (dropKey "R=" r).bind (parseIds ','), parseTop net with
-    | some R, some it => (st, (checkNetwork st.g it R).toString)
+    | some R, some it =>
+      (st, (checkNetwork st.g it R).toString ++ " all=" ++ joinWith "," ((failingClauses st.g it R).map (·.toString)))
     | _, _ => bad st
   | _ => bad st
 
